@@ -1,0 +1,22 @@
+//go:build verif
+
+// Contracts for govc (contract-based deductive verification, /verif). Comment-only file:
+// it is compiled only under the build tag "verif" and contains no code.
+
+package byte_pool
+
+// whether a pool stores a key of this length at this index (a function of the pool's fixed geometry)
+//@ spec accepts(pool IBytePool, index int32, keyLen int) bool := abstract
+
+//@ func (IBytePool).Set
+//@   trusted abstract contract of the pool interface: Set reports an error exactly when it did not store the key; it writes only the pool's private buffer
+//@   modifies nothing
+//@   ensures (result0 == nil) <==> accepts(recv, a0, len(a1))
+
+//@ func (IBytePool).Get
+//@   trusted abstract contract of the pool interface: pure
+//@   modifies nothing
+
+//@ func (IBytePool).MaxElemSize
+//@   trusted abstract contract of the pool interface: pure
+//@   modifies nothing
